@@ -109,7 +109,7 @@ def _run(cmd, text, timeout):
     return "unknown", dt, out[:500]
 
 
-def solve_one(ob, want_second=False):
+def solve_one(ob, scale=1):
     text = ob.text
     ob.smt_size = len(text)
     if ob.kind == "canary":
@@ -122,16 +122,17 @@ def solve_one(ob, want_second=False):
     # (they are rarely needed and can make instantiation explode)
     for label, txt in (("light", getattr(ob, "text_light", None)), ("linear", getattr(ob, "text_linear", None))):
         if txt:
-            res, dt, out = _run(["z3-new", "-T:6"], txt, 6)
+            res, dt, out = _run(["z3-new", f"-T:{6 * scale}"], txt, 6 * scale)
             if res == "unsat":
                 ob.status, ob.backend, ob.time, ob.output = "proved", "z3-5.1", dt, f"[{label} hypothesis subset] unsat"
                 return ob
+    t1, t2 = T1 * scale, T2 * scale
     backends = [
-        ("z3-5.1", ["z3-new", f"-T:{T1}"], T1),
-        ("z3-4.8.12", ["/usr/bin/z3", f"-T:{T2}"], T2),
+        ("z3-5.1", ["z3-new", f"-T:{t1}"], t1),
+        ("z3-4.8.12", ["/usr/bin/z3", f"-T:{t2}"], t2),
     ]
     if not _Z3ONLY.search(text):
-        backends.append(("cvc5-1.0.3", ["/usr/bin/cvc5", f"--tlimit={T2 * 1000}"], T2))
+        backends.append(("cvc5-1.0.3", ["/usr/bin/cvc5", f"--tlimit={t2 * 1000}"], t2))
     total = 0.0
     outs = []
     for name, cmd, to in backends:
@@ -174,6 +175,14 @@ def solve_all(obs, progress=None):
         for i, _ in enumerate(ex.map(solve_one, todo)):
             if progress:
                 progress(i, len(todo))
+    # wall-clock budgets can expire on a loaded machine: every query left open is retried with 4x the budget,
+    # four at a time, so that a verdict does not flip with the load (an answer after a retry is the same answer)
+    again = [ob for ob in todo if ob.status == "unknown" and ob.kind != "canary"]
+    if again:
+        with ThreadPoolExecutor(max_workers=4) as ex:
+            for ob in ex.map(lambda o: solve_one(o, 4), again):
+                if ob.status != "unknown":
+                    ob.output = "[retried with 4x budget] " + ob.output
     return obs
 
 
